@@ -28,6 +28,8 @@ def run(res):
     cc.check_and_replay(res, 'c09_restart_in_frame', Ka, depth_all=0, walks=10000 if th else 1000)
     cc.trace_validate(res, 'c09_recorded', 6, 1000 if th else 100, 60)
     cc.repo_tests_validate(res)
+    if th:
+        cc.simulate_big(res)
     for sw in ('StartCancelsPendingKill', 'FinishDropsKillMark'):
         K2 = dict(Ks if sw == 'FinishDropsKillMark' else K)
         K2[sw] = False
